@@ -88,15 +88,18 @@ PROP = {'gen': [],
                'iff the stop state is reachable, carries exactly the tags of the reachable tagged states and is terminal only if no '
                'byte has a transition (C15_compile, C15_compile_total); hence DFA::matches = expression matches (C15_main, '
                'C15_main_unconditional), terminal/dead only if no extension matches (C15_terminal_dead), tags of a tagged choice = tags '
-               'of the matching alternatives for expressions of the tagged-choice shape only (C15_tags_partial; for tags anywhere the '
-               'NFA-level law C15_tags_reachable); each production DFA of decoder.rs, as dumped on this run, is the subset construction '
-               'of the production NFA dumped before compile (C15_production_event/command/utf8: verified certificate checker, translation '
-               'validation). The model is tied to the code by a differential run: NFA graph (Debug output), '
+               'of the matching alternatives (C15_tags_tagged_choice), as the special case of the general expression-level law for tags in '
+               'arbitrary positions (C15_tags: reported tags = {t | some (t, r) of tex e has r matching s}; C15_tags_reachable is the '
+               'NFA-level form); the efficient rendering compile_fast used under vm_compute equals the reference compile '
+               '(C15_compile_fast); each production DFA of decoder.rs, as dumped on this run, is the subset construction of the '
+               'production NFA dumped before compile (Props/C15Prod.v, a separate target: C15_production_event/command/utf8, verified '
+               'certificate checker = translation validation; the model of compile run on the production NFAs reproduces the production '
+               'DFAs state for state). The model is tied to the code by a differential run: NFA graph (Debug output), '
                'DFA (canonical enumeration), acceptance/terminal/tags after every short string and guided long strings, with a '
                'verified derivative matcher as property predicate.',
  'level_note': 'Trusted: Coq kernel + vm_compute; hand-written model (BTreeMap<NFAStateId,_> as a list indexed by id: ids are dense by '
                'construction, compared with the ids printed by the code); denotation of expressions is the specification; symbols are '
-               'bytes. Tags characterised at expression level for tagged choices only. No axioms (Print Assumptions: closed).',
+               'bytes. Tags characterised at expression level for every expression (tex). No axioms (Print Assumptions: closed).',
  'technique': 'Coq proof (structural induction over expressions with path decomposition lemmas; invariant of the subset construction) '
               '+ model/implementation correspondence',
  'design_ref': 'DESIGN.md 5, 6.15',
